@@ -122,7 +122,11 @@ class _Jac(LinearOperator):
         self.fcn = fcn
         self.yparam = yparam
         self.params = list(params)
-        self.objparams = fcn.objparams()
+        # a copy: fcn.objparams() is the list the pure function itself keeps as its
+        # current object parameters, and uselinopparams writes into this list;
+        # on the shared list the substituted tensors would be taken as "already set"
+        # and never reach the object
+        self.objparams = list(fcn.objparams())
         self.yout = yout
         self.v = v
         self.idx = idx
